@@ -389,6 +389,7 @@ struct RunCfg {
   int progress; // 0 nullptr, 1 recorder, 2 default argument
   int cb_yields;
   bool first_spawn_fails = false;
+  int start_override = -1; // >= 0: start_value (used for ranges that span more than half of a narrow type)
   int inverted_by = 0; // > 0: start_value = end_value + inverted_by (an empty range given "backwards")
   bool threads_unknown = false; // num_threads == 0 and hardware_concurrency() == 0: the call may refuse (logic_error) or pick a count itself
   int offset_kind; // 0: 0, 1: 1, 2: 100, 3: near the type's maximum
@@ -414,6 +415,10 @@ void run_typed(const RunCfg& c, const char* type_name) {
       if (std::is_signed_v<IntT>) start = (IntT)((IntT)(c.slack % 3) - 1 - (IntT)c.len);
       else start = 0;
       break;
+  }
+  if (c.start_override >= 0) {
+    start = (IntT)c.start_override;
+    VS_PROBE("range_wider_than_half_the_type");
   }
   if (c.offset_kind == 4 && std::is_signed_v<IntT> && c.len > 0) VS_PROBE("negative_start_value");
   IntT end = (IntT)(start + (IntT)c.len);
@@ -561,7 +566,9 @@ void run_typed(const RunCfg& c, const char* type_name) {
           "callback invoked with " + std::to_string(sv) + " which is outside [" + std::to_string((int64_t)bits<IntT>(start)) + "," + std::to_string((int64_t)bits<IntT>(end)) + ") (" + type_name + ", " +
               std::to_string(c.eff_threads) + " threads" + (wraps ? ", end_value within num_threads*block_size of the type's maximum so the cursor wraps" : "") + ")");
     }
-    if (call.thread_num >= (uint64_t)(c.threads_unknown ? std::max(vshim::g_flags.threads_created, 1) : c.eff_threads)) fail("callback/bad_thread_num", cfg_key, "callback got thread_num " + std::to_string(call.thread_num) + " with " + std::to_string(c.eff_threads) + " threads");
+    // (with num_threads == 0 and an unknown hardware concurrency the count is the implementation's own choice: only
+    // the identity check below applies)
+    if (!c.threads_unknown && call.thread_num >= (uint64_t)c.eff_threads) fail("callback/bad_thread_num", cfg_key, "callback got thread_num " + std::to_string(call.thread_num) + " with " + std::to_string(c.eff_threads) + " threads");
     if (++seen[call.value] > 1) vfail("callback/invoked_twice", cfg_key, "callback invoked twice for value " + std::to_string(sv));
     any_true_returned |= call.returned_true;
   }
@@ -633,6 +640,14 @@ static void run() {
   bool large = thorough && choose(16, "large") == 15; // occasionally a long range with many threads
   if (large) c.len = 13 + choose(108, "len.large");
   c.offset_kind = choose(5, "offset");
+  // one uint8_t run in twelve covers more than half of the type's value space (end - start does not fit the
+  // signed type of the same width)
+  if (type == 0 && choose(12, "span.more_than_half") == 11) {
+    c.len = 129 + (int)choose(120, "span.len");
+    c.start_override = (int)choose(256 - c.len, "span.start");
+    c.offset_kind = 0;
+    large = false;
+  }
   c.slack = choose(9, "slack");
   c.threads = large ? 1 + choose(8, "threads.large") : choose(5, "threads"); // 0..4 (1..8 for long ranges)
   // (0: "not computable", which the standard allows hardware_concurrency() to say)
@@ -719,7 +734,7 @@ static void run() {
   sc.starve_victim = 1 + choose(std::max(c.eff_threads, 1), "sched.victim");
   sc.quantum = 1 + choose(4, "sched.quantum");
   sc.wake_early_den = (uint32_t)pick({0, 16, 4}, "sched.timer_early_rate");
-  sc.step_budget = large ? 300000 : 30000;
+  sc.step_budget = (large || c.start_override >= 0) ? 300000 : 30000;
   vshim::g_flags = vshim::RunFlags();
   vshim::g_flags.hardware_concurrency = hw;
   vshim::g_flags.first_spawn_fails = c.first_spawn_fails;
@@ -784,7 +799,7 @@ int main(int argc, char** argv) {
   e.components = {{"phosg Tools.hh: parallel_range, parallel_range_blocks, parallel_range_blocks_multi, their thread functions and parallel_range_default_progress_fn", "real, unmodified header from the repository working tree (macro retargeting in the harness TU)"},
       {"std::thread, std::atomic, usleep, now()", "stub: scheduler-controlled shims (engines/sim_par.cc, vsim/vpar.cc)"},
       {"callback and progress recorder", "harness"}};
-  e.expected_probes = {"two_workers_in_callback", "progress_timer_fired_while_workers_busy", "early_exit_skipped_values", "two_callbacks_returned_true", "end_value_near_type_max", "values_split_between_workers", "progress_fn_called", "negative_start_value", "second_call_in_process", "thread_creation_failure_reported", "hardware_concurrency_unknown_refused", "inverted_empty_range"};
+  e.expected_probes = {"two_workers_in_callback", "progress_timer_fired_while_workers_busy", "early_exit_skipped_values", "two_callbacks_returned_true", "end_value_near_type_max", "values_split_between_workers", "progress_fn_called", "negative_start_value", "second_call_in_process", "thread_creation_failure_reported", "hardware_concurrency_unknown_refused", "inverted_empty_range", "range_wider_than_half_the_type"};
   e.expected_faults = {"thread_creation_fails"};
   return driver_main(argc, argv, e);
 }
